@@ -137,14 +137,25 @@ def replay(payload):
     ts = _ts_for(kw["skel"])
     G, space = kw["G"], kw["space"]
     outs = []
-    for mu, eps in ((max(float(m.get("mu", 0.3)), 1e-9), max(float(m.get("eps", 1e-3)), 1e-12)),
-                    (0.05, 0.01), (0.3, 0.001)):
+    # the model's point, two fixed ones, and a deterministic family of prior rows / rates: the
+    # symbolic counterexample fixes the Poisson terms arbitrarily, so the concrete witness has
+    # to be looked for among real ones
+    rng = np.random.default_rng(0)
+    cands = [(max(float(m.get("mu", 0.3)), 1e-9), max(float(m.get("eps", 1e-3)), 1e-12), None),
+             (0.05, 0.01, None), (0.3, 0.001, None)]
+    for _ in range(40):
+        cands.append((float(rng.choice([0.05, 0.5, 3.0])), float(rng.choice([1e-3, 0.05])),
+                      rng.uniform(0.01, 1.0, size=(ts.num_nodes, G)) ** 3))
+    for mu, eps, rows in cands:
         tp = [0.0]
         for g in range(1, G):
             tp.append(tp[-1] + max(float(m.get(f"dt{g}", 1.0)), 1e-6))
         pri = tsdate.build_prior_grid(ts, population_size=1, timepoints=np.array(tp))
         for u in pri.nonfixed_nodes:
-            row = [max(float(m.get(f"pr{u}_{g}", 1.0)), 1e-12) for g in range(G)]
+            if rows is None:
+                row = [max(float(m.get(f"pr{u}_{g}", 1.0)), 1e-12) for g in range(G)]
+            else:
+                row = list(rows[int(u)])
             if kw.get("zero_first", True):
                 row[0] = 0.0
             pri[u] = np.array(row)
